@@ -23,7 +23,13 @@ def run_product(case):
     imgs = case["imgs"]
     level = "1.5" if case["nmap"] == 1 else "1.1"
     images = [(im["pol"], im["scan"] or None, 2 + i, 1 + (i % 2)) for i, im in enumerate(imgs)]
-    b = product.build_product(level=level, images=images, seed=case["seed"])
+    # every sixth product: ONE image (a channel / scan lost altogether) has every line flagged invalid, or every line's flags raised: still a
+    # group of its own, and the images behind it too
+    lo = None
+    if case["seed"] % 6 == 5 and len(images) > 1 and level == "1.1":   # (the flag is a field of the signal data records)
+        k_bad = (case["seed"] // 6) % len(images)
+        lo = {(k_bad, ln, f): 1 for ln in range(images[k_bad][2]) for f in ("invalid_line_flag",)}
+    b = product.build_product(level=level, images=images, seed=case["seed"], line_overrides=lo)
     # "any order of sections in the summary": the file roles follow the numbering of the ...ProductFileNameNN keys, so the lines may
     # come in any order (SummaryGrammar!OrderIndependent): as written / reversed / sections interleaved round-robin / shuffled
     mode = case["seed"] % 4
